@@ -145,9 +145,7 @@ func cmdWorker(t *testing.T, args []string) int {
 		fmt.Println("worker:", err)
 		return 2
 	}
-	if job.Profile == "conc" || job.Profile == "snap" {
-		curPlanFile = job.Out + ".cur"
-	}
+	curPlanFile = job.Out + ".cur" // (every profile: a crash of the process is attributed to the plan that was running)
 	out := &WorkerOut{Kinds: map[string]int{}, Trans: map[string]int{}, FaultsConf: map[string]int{}, FaultsHit: map[string]int{}, Probes: map[string]int{}, Foreign: map[string]int{}, OwnSigs: map[string]int{}}
 	il := map[uint64]bool{}
 	nt := map[uint64]bool{}
@@ -1098,9 +1096,6 @@ var curPlanFile string
 
 // ExecuteChecked = Execute + the oracles that live outside the bubble (race detector log for C18).
 func ExecuteChecked(t *testing.T, plan *Plan, opt ExecOpt) *RunResult {
-	if curPlanFile != "" {
-		_ = SavePlan(curPlanFile, plan)
-	}
 	res := Execute(t, plan, opt)
 	if plan.Profile == "conc" {
 		own, foreign := newRaceReports()
@@ -1127,6 +1122,8 @@ func ExecuteChecked(t *testing.T, plan *Plan, opt ExecOpt) *RunResult {
 	return res
 }
 
+var overflowRe = regexp.MustCompile(`(?m)^fatal error: stack overflow`)
+var libFrameRe = regexp.MustCompile(`(?m)^github\.com/openziti/storage/(?:boltz|ast)\.([^\s(]*(?:\([^)]*\))?[^\s(]*)\(`)
 var fatalRe = regexp.MustCompile(`(?m)^fatal error: (concurrent map[^\n]*)`)
 var faultRe = regexp.MustCompile(`(?m)^(unexpected fault address|fatal error: fault|\[signal SIG(BUS|SEGV)[^\n]*)`)
 
@@ -1147,6 +1144,14 @@ func crashViolation(output string) *Violation {
 	if m := fatalRe.FindStringSubmatchIndex(output); m != nil {
 		return &Violation{Props: []string{"C18"}, Oracle: "crash", Sig: "fatal:" + strings.ReplaceAll(output[m[2]:m[3]], " ", "-"),
 			Detail: "the process died with an unrecoverable runtime error while steps of a race window ran concurrently:\n" + excerptFrom(m[0])}
+	}
+	if m := overflowRe.FindStringIndex(output); m != nil {
+		// unbounded recursion: the first library frame of the overflowing goroutine names it. Every history property
+		// needs its API calls to return; the stored state the call choked on was produced through the API
+		if fm := libFrameRe.FindStringSubmatch(output[m[0]:]); fm != nil {
+			return &Violation{Props: []string{"C03", "C04", "C05", "C06", "C07", "C08", "C15", "C16"}, Oracle: "crash", Sig: "fatal:stack-overflow-in-library",
+				Detail: "the process died with a stack overflow (unbounded recursion) inside the library, top frame " + fm[1] + ":\n" + excerptFrom(m[0])}
+		}
 	}
 	if m := faultRe.FindStringIndex(output); m != nil {
 		for _, fn := range []string{"MarkAsSnapshot", "SnapshotInTx", "RestoreFromReader", "RestoreSnapshot", "StreamToWriter"} {
